@@ -85,6 +85,106 @@ def validate(c, traces, meta):
     c.sample({'direction': 'C2S', 'instance': meta[0]['instance'], 'result': traces[0][1]})
 
 
+def concurrent_collections(c, rng, wd, ncases, max_runs):
+    """Two threads collect at the same time, each for its own tracepoint with its own limits (one TriggerHandler).
+    The agent renders application objects while it collects; every such rendering is a scheduling point, and every
+    schedule with at most two forced switches is run. Each thread's snapshot must be what the Collector machine
+    produces for ITS instance and ITS limits."""
+    import sys
+    from deep.api.tracepoint.trigger import LocationAction, LineLocation, Trigger, Location
+    from .. import rig as R, sched as S
+    runners = [G.CollectorRun(wd), G.CollectorRun(wd)]
+    traces, meta = [], []
+    for case in range(ncases):
+        insts, builts = [], []
+        for k in range(2):
+            while True:
+                inst = G.random_instance(rng, max_nodes=7, kinds=('int', 'str', 'list', 'dict', 'obj'))
+                # the first local is an application object (so that there is a scheduling point early on)
+                inst['kind'].append('obj')
+                inst['child'].append([])
+                inst['slen'].append(1)
+                inst['roots'] = [len(inst['kind'])] + inst['roots']
+                if k == 0:      # a tight tracepoint and a generous one
+                    inst.update(maxVars=rng.choice([1, 2, 3]), maxStr=rng.choice([1, 2]), maxColl=rng.choice([0, 1]),
+                                maxDepth=rng.choice([2, 3]))
+                else:
+                    inst.update(maxVars=1000, maxStr=1024, maxColl=10, maxDepth=5)
+                built = G.build(inst)
+                if built is not None:
+                    break
+            insts.append(inst)
+            builts.append(built)
+
+        def make_run():
+            sch = S.Scheduler()
+            rg = R.Rig()
+            trigs, hosts = [], []
+            for k in range(2):
+                mod, path, marks = runners[k].host(len(insts[k]['roots']))
+                mod.VALS = [builts[k].objs[r] for r in insts[k]['roots']]
+                mod.W = []
+                conf = {'watches': [], 'frame_type': 'single_frame', 'stack_type': 'stack', 'fire_count': '1',
+                        'fire_period': '1000', 'log_msg': None,
+                        'MAX_VARIABLES': insts[k]['maxVars'], 'MAX_STRING_LENGTH': insts[k]['maxStr'],
+                        'MAX_COLLECTION_SIZE': insts[k]['maxColl'], 'MAX_VAR_DEPTH': insts[k]['maxDepth']}
+                act = LocationAction('tp-%d' % k, None, conf, LocationAction.ActionType.Snapshot)
+                trigs.append(Trigger(LineLocation(path.rsplit('/', 1)[-1], marks['frame'], Location.Position.START),
+                                     [act]))
+                hosts.append((mod, path))
+            rg.install_triggers(trigs)
+            results = {}
+            G.STR_HOOK = lambda: sch.point('render')
+            for k in range(2):
+                def body(k=k):
+                    results[k] = rg.run(hosts[k][0].frame_fn, only_file=hosts[k][1])
+                sch.spawn('T%d' % k, body)
+
+            def finish(sched, schedule):
+                G.STR_HOOK = None
+                snaps = {s.tracepoint.id: s for s in rg.snapshots()}
+                out = (dict(results), snaps, list(rg.escaped), len(rg.snapshots()))
+                rg.close()
+                return out
+            return sch, finish
+
+        try:
+            for schedule, (results, snaps, escaped, nsnaps) in S.explore(make_run, max_preemptions=2, max_runs=max_runs):
+                for k in range(2):
+                    hdr = G.instance_header(insts[k], builts[k])
+                    problem, result = None, None
+                    if results.get(k) != ('ok', 0) or escaped:
+                        problem = 'host changed / handler raised: %r %r' % (results.get(k), escaped)
+                    elif nsnaps != 2 or ('tp-%d' % k) not in snaps:
+                        problem = 'expected one snapshot per thread, got %d' % nsnaps
+                    else:
+                        try:
+                            result = G.project(snaps['tp-%d' % k], builts[k])
+                        except ValueError as ex:
+                            problem = str(ex)
+                    traces.append([hdr, result if result is not None else
+                                   {'order': [], 'kids': [], 'vlen': [], 'trunc': [], 'wres': []}])
+                    meta.append({'kind': 'concurrent (other thread: limits %s, schedule %s)' % (
+                        {x: insts[1 - k][x] for x in ('maxVars', 'maxStr', 'maxColl', 'maxDepth')}, _compress(schedule)),
+                        'instance': hdr, 'problem': problem, 'nvars': len(result['order']) if result else 0})
+        finally:
+            G.STR_HOOK = None
+            for k in range(2):
+                mod, _, _ = runners[k].host(len(insts[k]['roots']))
+                mod.VALS = None
+    return traces, meta
+
+
+def _compress(schedule):
+    out = []
+    for s_ in schedule:
+        if out and out[-1][0] == s_:
+            out[-1][1] += 1
+        else:
+            out.append([s_, 1])
+    return out
+
+
 def run(c):
     quick = c.tier == 'quick'
     rng = random.Random(c.seed)
@@ -125,6 +225,9 @@ def run(c):
         for i in insts:
             i['maxVars'] = rng.choice([2, 3, 5])
         traces, meta, sk3 = c07.run_instances_budget(c, insts, wd, 'watches-small-budget', 3)
+    validate(c, traces, meta)
+    # two threads collecting at once, each within its own tracepoint's limits
+    traces, meta = concurrent_collections(c, rng, wd, 6 if quick else 80, 25 if quick else 120)
     validate(c, traces, meta)
     c.extra['instances_not_constructible'] = skipped + sk2 + sk3
 
